@@ -8,10 +8,11 @@ import collections.abc as cabc
 import importlib.util
 import os
 
-from ..fde import FDE, Obj, Opaque, Unsupported
+from ..fde import FDE, Obj, Opaque, Unsupported, Raised
 from ..report import AnalysisError
 from ..srcmodel import norm
 from . import tr
+from .common import node_obj
 
 
 def _fde(repo, stubs=(), stub=None):
@@ -197,3 +198,157 @@ def wrapped_node_origin(repo, run, rule):
         run.violation(rule, fi, 'AwesomeyamlLoader._convert', '; '.join(sorted(set(bad))[:3]))
     else:
         run.ok(rule, fi, '_convert: origin recorded on 4 node states', 'missing stage index / source file filled from the parse context, existing ones kept')
+
+
+def clear_premerge(repo, run, rule):
+    """ClearNode premerge: the node at the same path of the older tree is emptied and is the result; a missing one is a KeyError"""
+    fi = repo.func('ClearNode.ayns.on_premerge_impl')
+    bad = []
+    for exists in (True, False):
+        target = Obj('older', 'ConfigDict')
+        log = []
+
+        def stub(name, recv, args, kwargs, target=target, exists=exists, log=log):
+            log.append((name, getattr(recv, 'name', None)))
+            if name == 'get_node':
+                return target if exists else None
+            return None
+        ev = _fde(repo, stubs={'get_node', 'clear', 'remove_node'}, stub=stub)
+        try:
+            r = ev.call(fi, Obj('clr', 'ClearNode'), ['a'], Obj('into', 'ConfigDict'))
+        except Unsupported as e:
+            raise AnalysisError('ClearNode.on_premerge_impl: finite-domain evaluator refused: %s' % e)
+        cleared = [x for x in log if x == ('clear', 'older')]
+        if exists and (r.raised or r.ret is not target or len(cleared) != 1):
+            bad.append('existing target: %s' % ('raises %s' % r.raised if r.raised else ('returns %r, cleared %d times' % (r.ret, len(cleared)))))
+        if not exists and r.raised != 'KeyError':
+            bad.append('missing target: %s (expected KeyError)' % (r.raised or 'returns %r' % (r.ret,)))
+    if bad:
+        run.violation(rule, fi, '!clear premerge', '; '.join(bad))
+    else:
+        run.ok(rule, fi, '!clear premerge on an existing / a missing target', 'existing node cleared once and returned; missing node -> KeyError')
+
+
+def subbuilder_request(repo, run, rule):
+    """Builder.get_subbuilder: only while a stage is being preprocessed (RuntimeError otherwise); the sub-builder knows its
+    requester, its parent and the parent's current stage"""
+    fi = repo.func('Builder.get_subbuilder')
+    bad = []
+    for cur in (None, 0, 2):
+        made = []
+        ev = _fde(repo)
+        ev.constructors['SubBuilder'] = lambda *a, **k: made.append((a, k)) or Obj('sub', 'SubBuilder')
+        b = Obj('builder', 'Builder', stages=[], _current_file=None, _current_stage=cur)
+        try:
+            r = ev.call(fi, b, ['inc'])
+        except Unsupported as e:
+            raise AnalysisError('Builder.get_subbuilder: finite-domain evaluator refused: %s' % e)
+        if cur is None:
+            if r.raised != 'RuntimeError':
+                bad.append('outside preprocessing: %s (expected RuntimeError)' % (r.raised or 'a sub-builder is handed out'))
+        elif r.raised or len(made) != 1 or list(made[0][0]) != [['inc'], b]:
+            bad.append('while stage %r is preprocessed: %s' % (cur, 'raises %s' % r.raised if r.raised else 'SubBuilder constructed with %s' % (made,)))
+    if bad:
+        run.violation(rule, fi, 'Builder.get_subbuilder', '; '.join(bad))
+    else:
+        run.ok(rule, fi, 'get_subbuilder with / without a current stage', 'RuntimeError outside preprocessing; SubBuilder(requester, self) inside')
+    init = repo.func('SubBuilder.__init__')
+    ev = _fde(repo, stubs={'get_current_stage_idx', '__init__'}, stub=lambda name, recv, args, kwargs: 5 if name == 'get_current_stage_idx' else None)
+    sub = Obj('sub', 'SubBuilder')
+    parent = Obj('parent', 'Builder')
+    try:
+        r = ev.call(init, sub, ['inc'], parent)
+    except Unsupported as e:
+        raise AnalysisError('SubBuilder.__init__: finite-domain evaluator refused: %s' % e)
+    if r.raised or sub.f.get('requester') != ['inc'] or sub.f.get('parent') is not parent or sub.f.get('stage') != 5:
+        run.violation(rule, init, 'SubBuilder.__init__', 'requester / parent / stage are %r / %r / %r, expected the arguments and the parent\'s current stage index' % (sub.f.get('requester'), sub.f.get('parent'), sub.f.get('stage')))
+    else:
+        run.ok(rule, init, 'SubBuilder remembers requester, parent and the parent\'s current stage')
+
+
+def require_all_new_table(repo, run, rule):
+    """ComposedNode.ayns._require_all_new evaluated: by default the node itself is part of what is checked; a node (the node
+    itself included) that forbids new paths raises unless it is in the exceptions; include_self=False leaves the node out"""
+    fi = repo.func('ComposedNode.ayns._require_all_new')
+    bad = []
+    rows = 0
+    for self_new in (True, False):
+        for child_new in (True, False):
+            for include_self in ('default', True, False):
+                for exc in (None, 'self', 'child'):
+                    me = node_obj('me', 'ConfigDict', _allow_new=self_new, _implicit_allow_new=self_new)
+                    child = node_obj('child', 'ConfigDict', _allow_new=child_new, _implicit_allow_new=child_new)
+
+                    def stub(name, recv, args, kwargs, me=me, child=child):
+                        if name == 'nodes_with_paths':
+                            inc = kwargs.get('include_self', False)      # (the traversal's own default)
+                            pref = kwargs.get('prefix', args[0] if args else None) or ()
+                            return ([(tuple(pref), me)] if inc else []) + [(tuple(pref) + ('c',), child)]
+                        raise AnalysisError('_require_all_new: unexpected stub ' + name)
+                    ev = _fde(repo, stubs={'nodes_with_paths'}, stub=stub)
+                    kw = {}
+                    if include_self != 'default':
+                        kw['include_self'] = include_self
+                    if exc is not None:
+                        kw['exceptions'] = {('p',)} if exc == 'self' else {('p', 'c')}
+                    try:
+                        r = ev.call(fi, me, ('p',), 'reason', **kw)
+                    except Unsupported as e:
+                        raise AnalysisError('_require_all_new: finite-domain evaluator refused: %s' % e)
+                    rows += 1
+                    checks_self = include_self in ('default', True)
+                    want = (checks_self and not self_new and exc != 'self') or (not child_new and exc != 'child')
+                    if bool(r.raised == 'ValueError') != want or (r.raised and r.raised != 'ValueError'):
+                        bad.append('node allow_new=%s, child allow_new=%s, include_self=%s, exceptions=%s: %s, expected %s' % (
+                            self_new, child_new, include_self, exc, r.raised or 'passes', 'ValueError' if want else 'no error'))
+    if bad:
+        run.violation(rule, fi, '_require_all_new', '; '.join(bad[:3]))
+    else:
+        run.ok(rule, fi, '_require_all_new evaluated on %d rows' % rows, 'self included by default; any checked node that forbids new paths raises unless excepted')
+
+
+def remove_node_table(repo, run, rule):
+    """ComposedNode.ayns._remove_node evaluated against a lookup stand-in that follows get_node's contract (missing path: None
+    only when incomplete=None was asked for, KeyError by default): missing -> None and nothing removed; existing -> the removal
+    function is applied to (parent, last name) and its result returned; the node itself -> ValueError"""
+    fi = repo.func('ComposedNode.ayns._remove_node')
+    bad = []
+    root, mid, leaf = Obj('root', 'ConfigDict'), Obj('mid', 'ConfigDict'), Obj('leaf', 'ConfigNode')
+    for case in ('missing', 'existing', 'self'):
+        removed = []
+
+        def stub(name, recv, args, kwargs, case=case):
+            if name == 'get_node':
+                if not (kwargs.get('intermediate') and kwargs.get('names')):
+                    raise AnalysisError('_remove_node: lookup without intermediate=True, names=True')
+                if case == 'missing':
+                    if 'incomplete' in kwargs and kwargs['incomplete'] is None:
+                        return None
+                    if kwargs.get('incomplete'):
+                        return [(root, None, []), (None, 'a', ['a'])]
+                    raise Raised('KeyError')
+                if case == 'self':
+                    return [(root, None, [])]
+                return [(root, None, []), (mid, 'a', ['a']), (leaf, 'b', ['a', 'b'])]
+            raise AnalysisError('_remove_node: unexpected stub ' + name)
+
+        def remove_fn(parent, name_):
+            removed.append((parent, name_))
+            return 'removed-node'
+        remove_fn._fde_ok = True
+        ev = _fde(repo, stubs={'get_node'}, stub=stub)
+        path = [] if case == 'self' else ['a', 'b']
+        try:
+            r = ev.call(fi, root, remove_fn, *path)
+        except Unsupported as e:
+            raise AnalysisError('_remove_node: finite-domain evaluator refused: %s' % e)
+        if case == 'missing' and (r.raised or r.ret is not None or removed):
+            bad.append('a missing path gives %s (expected None, nothing removed)' % (r.raised or ('%r, removed %s' % (r.ret, removed))))
+        if case == 'existing' and (r.raised or r.ret != 'removed-node' or removed != [(mid, 'b')]):
+            bad.append('an existing path: %s (expected remove_fn(parent, last name) and its result)' % (r.raised or ('%r, removed %s' % (r.ret, removed))))
+        if case == 'self' and r.raised != 'ValueError':
+            bad.append('the empty path (the node itself): %s (expected ValueError)' % (r.raised or repr(r.ret)))
+    if bad:
+        run.violation(rule, fi, '_remove_node', '; '.join(bad))
+    else:
+        run.ok(rule, fi, '_remove_node on a missing / existing / empty path', 'None / remove_fn(parent, name) / ValueError')
